@@ -232,10 +232,12 @@ CHECKS = {
              "any byte string; a successful parse yields exactly the fields one top-level dictionary states (FieldsOf); "
              "every accessor (piece, piece_length, total_length, file_piece_ranges) is panic-free for every valid index "
              "with overflow checks on and off. Two genuine defects found by the check were repaired by fix: commits "
-             "(piece length 0, overflowing total). create_file -> parse is tied by correspondence with SHA-1 of every "
-             "256 KiB chunk recomputed by the driver.",
-        note="Partial: the create->parse round trip has no Coq proof. UTF-8 validity and decimal parsing are hand models "
-             "of std, tied by correspondence. No axioms.",
+             "(piece length 0, overflowing total). create -> parse is a theorem (C17_create_parse, C17_create_file_parse: the "
+             "document create_file writes, for any 20-byte hash function over the 256 KiB chunks, is read back as exactly the "
+             "fields it was made from, its hash input being the canonical encoding of its info dictionary) and is also tied by "
+             "correspondence with SHA-1 of every chunk recomputed by the driver.",
+        note="UTF-8 validity and decimal parsing are hand models of std, tied by correspondence. SHA-1 uninterpreted (any "
+             "function producing 20 bytes). No axioms.",
         technique="Coq proof (invariants over folds, case analysis) + differential correspondence",
         design="2/C17"),
     "C19": dict(
